@@ -193,6 +193,51 @@ def triples(ctx):
             nb = [(p[0] + dy, p[1] + dx) for dy, dx in ((0, 0), (0, 0), (1, 0), (-1, 0), (0, 1), (0, -1)) if 0 <= p[0] + dy < h and 0 <= p[1] + dx < w]
             s2 = (g2, r.choice(nb), o, held)
             origin = 'layout-change'
+        elif kk < 0.905:
+            # a serpentine maze: walking distances far above height + width (no bound other than the number of cells is valid)
+            mh, mw = r.choice([(7, 7), (7, 5), (9, 6)])
+            rows = []
+            for y in range(mh):
+                if y % 2 == 0:
+                    rows.append([F] * mw)
+                else:
+                    gap = mw - 1 if (y // 2) % 2 == 0 else 0
+                    rows.append([F if x == gap else gen.WALL for x in range(mw)])
+            path = []
+            for y in range(0, mh, 2):
+                xs = list(range(mw)) if (y // 2) % 2 == 0 else list(range(mw - 1, -1, -1))
+                path += [(y, x) for x in xs]
+                if y + 1 < mh:
+                    path.append((y + 1, xs[-1]))
+            g = tuple(tuple(row) for row in rows)
+            end = path[-1] if r.random() < 0.7 else path[0]
+            g = gen.set_cell(g, end, (TY['Exit'], 0, 0, None))
+            i = r.randrange(1, len(path) - 1)
+            j = i + r.choice([-1, 1, 0])
+            h, w = mh, mw
+            s = (g, path[i], r.randrange(4), gen.NONE)
+            s2 = (g, path[j], r.randrange(4), gen.NONE)
+            if end in (path[i], path[j]):
+                s2 = s
+            origin = 'maze'
+        elif kk < 0.915:
+            # several exits, two or more of them in the beacon's colour: ANY exit of that colour is a good one
+            bc = r.choice([1, 2, 3])
+            g = tuple(tuple(F if c[0] in (TY['Exit'], TY['Beacon']) else c for c in row) for row in g)
+            cells_ = [(y, x) for y in range(h) for x in range(w)]
+            r.shuffle(cells_)
+            picks = cells_[:min(len(cells_), 4)]
+            if len(picks) >= 3:
+                g = gen.set_cell(g, picks[0], (TY['Beacon'], 0, bc, None))
+                for q in picks[1:3]:
+                    g = gen.set_cell(g, q, (TY['Exit'], 0, bc, None))
+                if len(picks) > 3:
+                    g = gen.set_cell(g, picks[3], (TY['Exit'], 0, bc % 3 + 1, None))
+                s = (g, p if cell(g, p) is not None else picks[0], o, held)
+                s2 = (g, r.choice(picks[1:]), o, held)
+            else:
+                s2 = s
+            origin = 'multi-exit'
         elif kk < 0.93:
             # the agent faces a door and actuates; in s' that door may have changed status, the agent's pose may have changed too (a
             # composition with teleport), and other doors stand around: the reward is about THE door that was in front in s
@@ -243,6 +288,10 @@ def run(ctx):
             d = comp.rand_reward(r, types)
             if origin == 'layout-change' and i == 0:
                 d = {'name': 'getting_closer_shortest_path', 'params': [comp.rand_param(r), comp.rand_param(r)], 'ty': TY['Exit']}
+            if origin == 'maze' and i == 0:
+                d = {'name': 'getting_closer_shortest_path', 'params': [comp.rand_param(r), comp.rand_param(r)], 'ty': TY['Exit']}
+            if origin == 'multi-exit' and i == 0:
+                d = {'name': 'reach_exit_memory', 'params': [comp.rand_param(r), comp.rand_param(r)]}
             if origin == 'door-change' and i == 0:
                 d = {'name': 'actuate_door', 'params': [comp.rand_param(r), comp.rand_param(r)]}
             if origin == 'hands-change' and i == 0:
